@@ -229,6 +229,10 @@ pub struct Interp<'c> {
     pub used: bool,
     pub probe_only: bool,
     pub plan_enabled: bool,
+    /// C18: conversion check at the end of the case (0 none, 1 to guaranteed-allocated, 2 to non-claimable while claimed)
+    pub conv_check: u8,
+    /// the arena was deliberately leaked while claimed (forgotten claim guard): grants stay outstanding
+    pub expect_leak: bool,
     /// C03 reset-loop rule requested for this case
     pub reset_loop: bool,
     /// nested replay rule switched off (while the reset loop drives the records)
@@ -308,6 +312,8 @@ impl<'c> Interp<'c> {
             used: false,
             probe_only: false,
             reset_loop: false,
+            conv_check: 0,
+            expect_leak: false,
             no_replay: false,
             feed_overrun: false,
             plan_enabled: false,
